@@ -121,6 +121,16 @@ def frame(b, a, loose, out, path=''):
 
 
 # ----------------------------------------------------------------- evaluate ---
+def mclass(observed, expected, base):
+    """Failure mode, part of the violation key: the annotation was 'ignored' (output kept the
+    baseline value), 'applied' although it had to be left unchanged, or a 'wrong' value was written."""
+    if observed == base:
+        return 'ignored'
+    if expected == base:
+        return 'applied'
+    return 'wrong'
+
+
 _BASE = {}
 
 
@@ -261,7 +271,8 @@ def evaluate(case, verbose=False):
             stat['must'] += 1
             if A['attrs'].get(k) != x[1]:
                 viol.append(('attr:%s' % k, '%s: %s=%r, expected %r (baseline %r)' % (
-                    label, k, A['attrs'].get(k), x[1], B['attrs'].get(k))))
+                    label, k, A['attrs'].get(k), x[1], B['attrs'].get(k)),
+                    mclass(A['attrs'].get(k), x[1], B['attrs'].get(k))))
         # <attribute> children, <doc>
         x = resolve(exp.attributes)
         if x is not None and sorted(A['attributes']) != sorted(x[1]):
@@ -279,7 +290,8 @@ def evaluate(case, verbose=False):
             r = MD.match(exp.type, A['type'])
             if r:
                 viol.append(('type', '%s: %s; got %s (baseline %s)' % (label, r, json.dumps(A['type']),
-                                                                      json.dumps(B['type']))))
+                                                                      json.dumps(B['type'])),
+                             'ignored' if A['type'] == B['type'] else 'wrong'))
         # parameters named by length / closure / destroy
         for name, eo in exp.others.items():
             bp, ap = param_named(bcall, name), param_named(acall, name)
@@ -297,7 +309,7 @@ def evaluate(case, verbose=False):
                 stat['must'] += 1
                 if ap.get(k) != x[1]:
                     viol.append(('other:%s' % k, '%s: parameter %s named by the annotation has %s=%r, expected %r' % (
-                        label, name, k, ap.get(k), x[1])))
+                        label, name, k, ap.get(k), x[1]), mclass(ap.get(k), x[1], bp.get(k))))
         if first:
             first = False
             # warnings, once per case
@@ -403,8 +415,18 @@ def canon(a):
     return a
 
 
-def vkey(rule, anns):
-    return '%s|%s' % (rule, '+'.join(canon(a) for a in anns))
+def _sig(v):
+    return (v[0], v[2] if len(v) > 2 else '')
+
+
+def callable_class(c):
+    return 'func' if c in MD.FUNCLIKE else c
+
+
+def vkey(rule, anns, callable_, mcls):
+    """Partial key; run() appends the set of type kinds on which this (clause, annotations, callable class,
+    failure mode) fails, so that a change of the failing set is a different key."""
+    return '%s|%s|%s|%s' % (rule, '+'.join(canon(a) for a in anns), callable_class(callable_), mcls or '-')
 
 
 def _work(chunk):
@@ -426,12 +448,12 @@ def _work(chunk):
                     part.add(evaluations=st['evals'], shrink_evaluations=1)
             return cache[k]
 
-        def shrink(rule, anns):
-            """smallest sub-multiset of the annotations on which the same clause still fails"""
+        def shrink(sig, anns):
+            """smallest sub-multiset of the annotations on which the same clause still fails the same way"""
             for i in range(len(anns)):
                 sub = anns[:i] + anns[i + 1:]
-                if sub and any(r == rule for r, _ in rules_of(sub)['viol']):
-                    return shrink(rule, sub)
+                if sub and any(_sig(x) == sig for x in rules_of(sub)['viol']):
+                    return shrink(sig, sub)
             return anns
 
         for i, anns in enumerate(sets):
@@ -443,15 +465,16 @@ def _work(chunk):
             if st['nontrivial']:
                 part.nontrivial('%s/%s/%s/%s/%s' % (c, layout, site, kind, '+'.join(anns)))
             done = set()
-            for rule, desc in st['viol']:
-                m = shrink(rule, anns)
-                if (rule, tuple(m)) in done:
+            for v in st['viol']:
+                sig = _sig(v)
+                m = shrink(sig, anns)
+                if (sig, tuple(m)) in done:
                     continue
-                done.add((rule, tuple(m)))
+                done.add((sig, tuple(m)))
                 if m != anns:
-                    desc = next(d for r, d in rules_of(m)['viol'] if r == rule)
+                    v = next(x for x in rules_of(m)['viol'] if _sig(x) == sig)
                 mcase = dict(case, anns=m)
-                myviol.append((vkey(rule, m), desc, mcase))
+                myviol.append((vkey(sig[0], m, c, sig[1]), v[1], mcase))
             if i == (len(kind) * 7 + layout * 3) % len(sets) and len(part.samples) < 12:
                 part.sample({'case': case, 'c': G.c_text(case)})
     r = part.result()
@@ -491,8 +514,10 @@ def run(ctx):
     for key in sorted(viol):
         _, desc, case = viol[key]['best']
         where = sorted(viol[key]['where'])
-        ctx.violation(key, '%s  [fails on %d site(s): %s%s]' % (desc, len(where), ' '.join(where[:8]),
-                                                               ' ...' if len(where) > 8 else ''), case)
+        kinds = sorted(set(w.split('.')[2] for w in where), key=G.KIND_ORDER.index)
+        ctx.violation('%s|%s' % (key, ','.join(kinds)),
+                      '%s  [fails on %d site(s): %s%s]' % (desc, len(where), ' '.join(where[:8]),
+                                                          ' ...' if len(where) > 8 else ''), case)
     ctx.max_reports = 60
     ctx.assumptions += [
         'inputs are symbol trees (what the C parser hands to Python), see DESIGN 1.1; miniature GLib/GObject/Gio GIRs',
@@ -519,6 +544,6 @@ def replay(ctx, case):
                 print('%s site: %s' % (label, json.dumps(reading(s)) if s is not None else None))
     else:
         print('error:', res.error)
-    for rule, desc in st['viol']:
-        print('VIOLATED %s: %s' % (rule, desc))
+    for v in st['viol']:
+        print('VIOLATED %s: %s' % (v[0], v[1]))
     return not st['viol']
